@@ -130,3 +130,58 @@ def group_accesses(func_node: ast.AST):
         elif isinstance(c, ast.Subscript) and isinstance(c.value, ast.Name) and c.value.id in mv and isinstance(c.slice, ast.Constant) and isinstance(c.slice.value, str) \
                 and isinstance(c.ctx, ast.Load):
             yield c, c.value.id, c.slice.value
+
+
+def always_participating(pattern, flags: int, group) -> bool:
+    """Does group `group` (number or name) take part in every successful match of the pattern?  True when it does not sit under
+    an alternation, an optional / zero-minimum repetition, or a conditional: then m.group(group) is never None."""
+    import re._constants as RC
+    import re._parser as RP
+    try:
+        tree = RP.parse(pattern, flags)
+    except Exception:
+        return False
+    gid = group
+    if isinstance(group, str):
+        gid = tree.state.groupdict.get(group)
+        if gid is None:
+            return False
+    if gid == 0:
+        return True
+
+    def walk(items, certain: bool):
+        for op, av in items:
+            if op is RC.SUBPATTERN:
+                g, _add, _del, p = av
+                if g == gid:
+                    return certain
+                r = walk(p, certain)
+                if r is not None:
+                    return r
+            elif op is RC.BRANCH:
+                for p in av[1]:
+                    r = walk(p, False)
+                    if r is not None:
+                        return r
+            elif op in (RC.MAX_REPEAT, RC.MIN_REPEAT, getattr(RC, "POSSESSIVE_REPEAT", None)):
+                lo, _hi, p = av
+                r = walk(p, certain and lo >= 1)
+                if r is not None:
+                    return r
+            elif op is RC.GROUPREF_EXISTS:
+                _g, yes, no = av
+                for p in (yes, no):
+                    if p is not None:
+                        r = walk(p, False)
+                        if r is not None:
+                            return r
+            elif op in (RC.ASSERT, RC.ASSERT_NOT):
+                r = walk(av[1], certain and op is RC.ASSERT)
+                if r is not None:
+                    return r
+            elif op is getattr(RC, "ATOMIC_GROUP", None):
+                r = walk(av, certain)
+                if r is not None:
+                    return r
+        return None
+    return bool(walk(tree, True))
